@@ -253,7 +253,7 @@ def index_cases(draw, rw, max_dims=4, max_len=3):
 
 class Read(Facet):
     name = "read"
-    examples = {"quick": 8000, "thorough": 450000}
+    examples = {"quick": 8000, "thorough": 240000}
     shards = {"quick": 8, "thorough": 16}
 
     def strategy(self, tier):
@@ -265,7 +265,7 @@ class Read(Facet):
 
 class Write(Facet):
     name = "write"
-    examples = {"quick": 8000, "thorough": 450000}
+    examples = {"quick": 8000, "thorough": 240000}
     shards = {"quick": 8, "thorough": 16}
 
     def strategy(self, tier):
